@@ -521,7 +521,7 @@ class Body:
                     val = ("icall", fo, tuple(self._op_origin(a, depth - 1, seen2) for a in c.args))
                 else:
                     val = ("call", c.callee, tuple(self._op_origin(a, depth - 1, seen2) for a in c.args), c.decl,
-                           self.local_ty(l) if not proj else None)
+                           self.local_ty(l) if not proj else None, c.bb)
                 if proj:
                     alts.append(("partial", self._projkey(proj), val))
                 else:
@@ -596,6 +596,21 @@ class Body:
         if k == "repeat":
             return ("repeat", self._op_origin(rv[1], depth, seen), rv[2])
         return ("other", k)
+
+
+def call_site_of(node):
+    """basic block of the call terminator a ("call",…) origin node stems from"""
+    return node[5] if node[0] == "call" and len(node) > 5 else None
+
+
+def strip_sites(tree):
+    """structural copy of an origin tree without call-site ids / return types
+    (for comparing expressions across functions)"""
+    if not isinstance(tree, tuple):
+        return tree
+    if tree and tree[0] == "call":
+        return ("call", tree[1], tuple(strip_sites(a) for a in tree[2]), tree[3])
+    return tuple(strip_sites(x) if isinstance(x, tuple) else x for x in tree)
 
 
 def walk(tree):
